@@ -405,11 +405,14 @@ class INETBase(NLRI):
         labels_list: list[int] | None = None
         if safi.has_label():
             labels_list = []
+            labels_raw: list[bytes] = []
             ended = False
             while mask - rd_mask >= LABEL_SIZE_BITS:
                 if len(data) < 3:
                     raise Notify(3, 10, 'not enough data to extract the label stack of the NLRI')
-                label = int(unpack('!L', bytes([0]) + bytes(data[:3]))[0])
+                label_chunk = bytes(data[:3])
+                label = int(unpack('!L', bytes([0]) + label_chunk)[0])
+                labels_raw.append(label_chunk)
                 data = data[3:]
                 mask -= LABEL_SIZE_BITS  # 3 bytes
                 # The last 4 bits are the bottom of Stack
@@ -496,7 +499,10 @@ class INETBase(NLRI):
         # Build kwargs for from_cidr - subclasses accept labels and rd
         kwargs: dict[str, Labels | RouteDistinguisher] = {}
         if labels_list is not None:
-            kwargs['labels'] = Labels.make_labels(labels_list)
+            # The stack as it was on the wire, like the mpls-vpn decoder keeps it. Rebuilding it from the
+            # label values set the bottom of stack bit and cleared the other low bits, so the RFC 3107
+            # withdraw label 0x800000 of a decoded route was sent back as 0x800001.
+            kwargs['labels'] = Labels(b''.join(labels_raw))
         if rd is not None:
             kwargs['rd'] = rd
 
